@@ -5,6 +5,7 @@ package harness
 import (
 	"fmt"
 	"math/rand"
+	"os"
 	"sort"
 	"strings"
 	"testing"
@@ -186,6 +187,25 @@ func (e *c07Env) viaRouter(msg sdk.Msg) func(ctx sdk.Context) (sdk.Coins, error)
 	}
 }
 
+// c07CollisionsEnabled: histories in which two different senders share their first 32 bytes reproduce the
+// known finding "quarantine-record-key-truncation-collision".  They are generated when VERIF_C07_COLLIDE=1,
+// never when it is 0, and otherwise exactly when known_findings.json lists that fingerprint as known (the
+// check then reports KNOWN-FINDING; without the entry it would report VIOLATION on the unchanged tree).
+func c07CollisionsEnabled() bool {
+	switch os.Getenv("VERIF_C07_COLLIDE") {
+	case "1":
+		return true
+	case "0":
+		return false
+	}
+	for _, p := range []string{"../known_findings.json", "known_findings.json", "/verif/known_findings.json"} {
+		if bz, err := os.ReadFile(p); err == nil {
+			return strings.Contains(string(bz), "quarantine-record-key-truncation-collision")
+		}
+	}
+	return false
+}
+
 func sumAcc(l []c07Rec) int {
 	n := 0
 	for _, r := range l {
@@ -221,16 +241,33 @@ func TestC07(t *testing.T) {
 	admin := addrN(799)
 	ensureAccount(app, baseCtx, admin)
 	holder := app.QuarantineKeeper.GetFundsHolder()
-	e.accts = []sdk.AccAddress{holder}
-	const nFunded = 5
-	for i := 1; i <= nFunded+1; i++ { // the last one is a stranger that never holds funds
-		e.accts = append(e.accts, addrN(700+i))
+	// Accounts of every legal address length class.  Ids below 1000 are addresses of at most 32 bytes;
+	// the id 1000*c+j is an address longer than 32 bytes whose first 32 bytes have the id c (the model's
+	// [trunc]): the record key of a single sender is cut to 32 bytes (createRecordSuffix).
+	lenAddr := func(tag string, n int) sdk.AccAddress { // n bytes, the first 32 determined by tag
+		b := make([]byte, n)
+		copy(b, fmt.Sprintf("verif_long_address_%-13s", tag)) // exactly 32 bytes
+		for i := 32; i < n; i++ {
+			b[i] = byte('a' + i%23)
+		}
+		return sdk.AccAddress(b)
 	}
-	for i, a := range e.accts {
-		e.ids[string(a)] = i + 1
+	a20a, a20b, stranger := addrN(701), addrN(702), addrN(706)
+	a32 := lenAddr("acct32", 32)
+	c33 := lenAddr("pfx101", 33)
+	d40 := lenAddr("pfx102", 40)
+	e255 := lenAddr("pfx103", 255)
+	d40x := lenAddr("pfx102", 40) // same first 32 bytes as d40, differs later
+	d40x[39] = 'Z'
+	g33 := lenAddr("acct32", 33) // its first 32 bytes are the 32-byte account a32
+	pool := []sdk.AccAddress{a20a, a32, a20b, c33, d40, e255} // pairwise different 32-byte prefixes
+	e.accts = append([]sdk.AccAddress{holder}, pool...)
+	e.accts = append(e.accts, d40x, g33, stranger)
+	for a, id := range map[string]int{string(holder): 1, string(a20a): 2, string(a32): 3, string(a20b): 4, string(stranger): 5,
+		string(c33): 101001, string(d40): 102001, string(e255): 103001, string(d40x): 102002, string(g33): 3001} {
+		e.ids[a] = id
 	}
-	funded := e.accts[1 : 1+nFunded]
-	stranger := e.accts[1+nFunded]
+	collide := c07CollisionsEnabled()
 	people := e.accts[1:]
 
 	pick := func(l []sdk.AccAddress) sdk.AccAddress { return l[r.Intn(len(l))] }
@@ -275,7 +312,39 @@ func TestC07(t *testing.T) {
 		nDen := 2 + r.Intn(2)
 		dens = e.denoms[:nDen]
 		nAcc := 4 + r.Intn(2)
-		players := funded[:nAcc]
+		var players []sdk.AccAddress
+		for _, j := range r.Perm(len(pool))[:nAcc] {
+			players = append(players, pool[j])
+		}
+		sort.Slice(players, func(i, j int) bool { return e.ids[string(players[i])] < e.ids[string(players[j])] })
+		// two DIFFERENT senders that share their first 32 bytes (known finding: they share one record key)
+		prefixCollision := false
+		if collide && r.Intn(8) == 0 {
+			has := func(x sdk.AccAddress) bool {
+				for _, a := range players {
+					if a.Equals(x) {
+						return true
+					}
+				}
+				return false
+			}
+			if r.Intn(2) == 0 {
+				if !has(d40) {
+					players = append(players, d40)
+				}
+				players = append(players, d40x)
+			} else {
+				if !has(a32) {
+					players = append(players, a32)
+				}
+				players = append(players, g33)
+			}
+			prefixCollision = true
+			w.Count("histories_with_senders_sharing_a_32_byte_prefix")
+		}
+		for _, a := range players {
+			w.Count(fmt.Sprintf("player_address_len_%03d", len(a)))
+		}
 		// ---- restricted markers of this history and who holds Access_Transfer on them
 		xfer := map[string]map[string]bool{}
 		var gXfer []string
@@ -435,6 +504,32 @@ func TestC07(t *testing.T) {
 			}
 			w.Count("scripted_decline_after_accept_sequences")
 		}
+		if prefixCollision {
+			// the known finding, scripted: both colliding senders pay the same opted-in receiver, the
+			// receiver accepts the second alone (nothing may happen), then both together
+			l2 := players[len(players)-1]
+			l1 := d40
+			if l2.Equals(g33) {
+				l1 = a32
+			}
+			var to sdk.AccAddress
+			for _, a := range players {
+				if !a.Equals(l1) && !a.Equals(l2) {
+					to = a
+					break
+				}
+			}
+			sendOp := func(from sdk.AccAddress) c07Op {
+				cs := sdk.NewCoins(sdk.NewInt64Coin(dens[0], 3+r.Int63n(20)))
+				msg := &banktypes.MsgSend{FromAddress: from.String(), ToAddress: to.String(), Amount: cs}
+				return c07Op{kind: "send", term: "OSend " + e.pos(from) + " " + e.pos(to) + " " + e.coins(cs),
+					desc: fmt.Sprintf("send %s>%s %s", e.short([]sdk.AccAddress{from}), e.short([]sdk.AccAddress{to}), cs), run: e.viaRouter(msg)}
+			}
+			optIn := c07Op{kind: "opt_in", term: "OOptIn " + e.pos(to), desc: "optin " + e.short([]sdk.AccAddress{to}),
+				run: e.viaRouter(&quarantine.MsgOptIn{ToAddress: to.String()})}
+			script = []c07Op{optIn, sendOp(l1), sendOp(l2), e.acceptOp(to, []sdk.AccAddress{l2}, false),
+				e.acceptOp(to, []sdk.AccAddress{l1, l2}, false)}
+		}
 		for oi := 0; oi < nOps; oi++ {
 			var op c07Op
 			if len(script) > 0 && r.Intn(3) != 0 {
@@ -557,7 +652,8 @@ func TestC07(t *testing.T) {
 		term := "CHist " + e.pos(holder) + " " + coqList(accItems) + " " + coqList(denItems) + "\n    " + genesis + "\n    (" + obs0 + ")\n    [" +
 			strings.Join(steps, ";\n     ") + "]"
 		w.Add(term, map[string]any{"history": hi, "genesis_records": len(gs.QuarantinedFunds), "genesis_opt_in": len(gs.QuarantinedAddresses),
-			"ops": descs, "note": "accounts: 1=holder, 2..6 funded, 7 stranger; +op accepted, -op rejected"})
+			"ops": descs, "prefix_collision": prefixCollision,
+			"note": "accounts: 1=holder, 2/4 20-byte, 3 32-byte, 5 stranger, 101001 33-byte, 102001 40-byte, 103001 255-byte, 102002 40-byte sharing 32 bytes with 102001, 3001 33-byte starting with account 3; +op accepted, -op rejected"})
 	}
 	w.Stats["ops_total"] = totalOps
 	w.Stats["ops_accepted"] = totalOK
